@@ -112,6 +112,15 @@ int main(int argc, char **argv) {
             // setInitState, which evaluate() must not clamp -- the map alone defines the duration of a decision variable (seeded change C19-m10)
             { Eigen::VectorXd xl = x, gl; for (int i = 0; i < N; ++i) xl(i) -= 0.0625 * (i + 1); TimeCost tcl; RunCost<1> rcl = RunCost<1>::mode(0); (void)opt.evaluate(xl, gl, tcl, rcl); const auto *ol = opt.getOptimalSpline();
               for (int i = 0; i < N; ++i) if (!ol || !bits_equal(ol->getTimeSegments()[i], map.toTime(xl(i)))) { c.st.violate(unit, fmt("evaluate(): duration %d is %.17g, toTime(x_%d) = %.17g (variables below the initial guess of durations %s)", i, ol ? ol->getTimeSegments()[i] : 0.0, i, map.toTime(xl(i)), fmt_vec(T).c_str()), {{"what", "optimizer-decode"}}); return; } }
+            // the backward rule at its use site, with an energy term in the cost: the time block of the returned gradient is
+            // backward(x_i, T_i, dCost/dT_i) for the COMPLETE duration gradient the workspace reports (seeded change C17-m10: backward applied
+            // before the energy term is added); and an optimizer that received this problem by assignment, after serving other durations,
+            // hands out toTau of THESE durations (seeded change C17-m9)
+            { typename std::decay<decltype(opt)>::type::Workspace wsb; Eigen::VectorXd xb = x, gb; for (int i = 0; i < N; ++i) xb(i) += 0.015625 * (i + 1); opt.setEnergyWeights(0.25); TimeCost tcb; RunCost<1> rcb = RunCost<1>::mode(1); (void)opt.evaluate(xb, gb, tcb, rcb, &wsb);
+              for (int i = 0; i < N; ++i) { const double want = map.backward(xb(i), map.toTime(xb(i)), wsb.grads.times(i)); if (!bits_equal(gb(i), want)) { c.st.violate(unit, fmt("evaluate() with an energy weight: time entry %d of the gradient is %.17g, backward(x_%d, T_%d, dCost/dT_%d = %.17g) = %.17g (durations %s)", i, gb(i), i, i, i, wsb.grads.times(i), want, fmt_vec(T).c_str()), {{"what", "optimizer-backward"}}); return; } }
+              opt.setEnergyWeights(0.0);
+              typename std::decay<decltype(opt)>::type other; std::vector<double> To = T; for (double &t : To) t = t * 0.5 + 0.25; if (other.setInitState(To, P, 1.0, bc)) (void)other.generateInitialGuess();
+              other = opt; Eigen::VectorXd xo = other.generateInitialGuess(); for (int i = 0; i < N; ++i) if (xo.size() != x.size() || !bits_equal(xo(i), map.toTau(T[i]))) { c.st.violate(unit, fmt("an optimizer assigned from this one (after serving other durations): generateInitialGuess() time variable %d is not toTau(%.17g) (durations %s)", i, T[i], fmt_vec(T).c_str()), {{"what", "optimizer-initial-guess"}}); return; } }
             for (int i = 0; i < N; ++i) x(i) += 0.03125 * (i + 1); TimeCost tc; RunCost<1> rc = RunCost<1>::mode(0); (void)opt.evaluate(x, g, tc, rc); const auto *os = opt.getOptimalSpline();
             for (int i = 0; i < N; ++i) if (!os || !bits_equal(os->getTimeSegments()[i], map.toTime(x(i)))) { c.st.violate(unit, fmt("evaluate(): duration %d is not toTime(x_%d) (durations %s)", i, i, fmt_vec(T).c_str()), {{"what", "optimizer-decode"}}); return; } };
           if (which == 0) { SplineOptimizer<1, CubicSplineND<1>, QuadInvTimeMap> o; run(o, QuadInvTimeMap()); } else { SplineOptimizer<1, CubicSplineND<1>, IdentityTimeMap> o; run(o, IdentityTimeMap()); } }
